@@ -26,23 +26,32 @@ type Oblig struct {
 	fv      *funcVerifier
 	Cand    int  // >=0: Houdini candidate index this obligation checks
 	CandLoop string
+	CandDesc string
+	Frame    bool // frame obligation: quantified frame axioms are added to the query
+	nFrameAx int
 	Canary  bool // must be refuted (vacuity guard)
 }
 
 // Query renders the SMT-LIB query for the obligation.
 func (o *Oblig) Query() string {
 	as := o.fv.assumptions[:o.nAssume]
+	if o.Frame && o.nFrameAx > 0 {
+		as = append(append([]smt.Term{}, as...), o.fv.frameAxioms[:o.nFrameAx]...)
+	}
 	return o.fv.c.Query(as, o.pc, o.goal, o.Inputs)
 }
 
 // Options control one function verification run.
 type Options struct {
 	Sweep       bool   // safety sweep: nopanic obligations, default contracts for callees
+	AutoInv     bool   // infer loop invariants (Houdini candidates) also outside the sweep
 	Property    string // property id prefix for obligation ids
 	NoPanic     bool   // generate nopanic obligations
 	Variants    bool   // generate loop variant obligations
 	Canary      bool
-	Candidates  map[string][]bool // per loop key: which auto-candidates are enabled
+	Disabled    map[string]map[string]bool // per loop key: auto-candidates (by description) dropped by Houdini
+	HeapKeys    map[string]string          // heap keys (with sorts) seen in a previous run: pre-registered so loop frame candidates cover them
+	ServiceLoops map[string]bool           // loop keys that are intentionally unbounded service loops (no variant obligation)
 }
 
 type loopFrame struct {
@@ -91,6 +100,9 @@ type funcVerifier struct {
 	inputDescr map[string]string
 
 	mut         int
+	frameFacts  []frameFact
+	frameAxioms []smt.Term
+	frameInst   map[string]int
 	sentinels   []string
 	volMem      map[string]bool
 	deferGuards []smt.Term
@@ -99,6 +111,7 @@ type funcVerifier struct {
 	preconds    []smt.Term
 	exit        *State
 	entryBase   *heapBase
+	lockSnap    *State
 
 	notes   []string // abstractions applied (reported in evidence)
 	reject  string   // non-empty: function outside the supported subset
@@ -143,7 +156,7 @@ func (fv *funcVerifier) assert(st *State, kind, desc string, pos token.Pos, goal
 		return nil
 	}
 	o := &Oblig{ID: fv.oblID(kind, desc), Kind: kind, Func: fv.fi.Key, Desc: desc, nAssume: len(fv.assumptions),
-		pc: st.live, goal: goal, fv: fv, Inputs: fv.inputs, Cand: -1}
+		pc: st.live, goal: goal, fv: fv, Inputs: fv.inputs, Cand: -1, nFrameAx: len(fv.frameAxioms), Frame: kind == "frame"}
 	if pos.IsValid() {
 		o.Pos = fv.prog.Pos(pos)
 	}
@@ -163,6 +176,7 @@ type FuncResult struct {
 	Notes      []string
 	Reject     string
 	Candidates map[string][]string
+	HeapKeys   map[string]string
 }
 
 // VerifyFunc generates the obligations of one function.
@@ -170,8 +184,11 @@ func (p *Program) VerifyFunc(fi *FuncInfo, opt Options) (res *FuncResult) {
 	fv := &funcVerifier{prog: p, fi: fi, pkg: fi.Pkg, info: fi.Pkg.TypesInfo, opt: opt,
 		c: smt.NewCtx(), heapSorts: map[string]string{}, baseCache: map[string]smt.Term{}, idCount: map[string]int{},
 		boxed: map[*types.Var]bool{}, volatile: map[*types.Var]bool{}, volField: map[string]bool{},
-		inputDescr: map[string]string{}, candLog: map[string][]string{}, volMem: map[string]bool{}}
+		inputDescr: map[string]string{}, candLog: map[string][]string{}, volMem: map[string]bool{}, frameInst: map[string]int{}}
 	fv.so = newSorts(fv.c)
+	for k, so := range opt.HeapKeys {
+		fv.heapSorts[k] = so
+	}
 	res = &FuncResult{Key: fi.Key}
 	defer func() {
 		if r := recover(); r != nil {
@@ -185,10 +202,14 @@ func (p *Program) VerifyFunc(fi *FuncInfo, opt Options) (res *FuncResult) {
 	}()
 	fv.run()
 	fv.so.distinctStrAxiom()
+	if len(fv.sentinels) > 1 {
+		fv.c.Axiom("", smt.Term{S: "(distinct " + strings.Join(fv.sentinels, " ") + ")", Sort: smt.Bool}, fv.sentinels...)
+	}
 	res.Obligs = fv.obligs
 	res.Notes = fv.notes
 	res.Reject = fv.reject
 	res.Candidates = fv.candLog
+	res.HeapKeys = fv.heapSorts
 	return res
 }
 
@@ -222,6 +243,9 @@ func (fv *funcVerifier) run() {
 		fv.inputs = append(fv.inputs, t.S)
 		fv.inputDescr[t.S] = name
 		fv.assumeGlobal(fv.so.valid(t, v.Type(), st.frontier))
+		if v.Type().String() == "context.Context" {
+			fv.assumeGlobal(smt.Ne(t, smt.IntLit(0))) // idiom: contexts are never nil
+		}
 		fv.declVar(st, v, t)
 	}
 	if fv.sig.Recv() != nil {
